@@ -32,6 +32,38 @@ theorem rem1_real (x : ℝ) : rem1 x = fract x := by
 theorem rem1_nonneg (x : ℝ) (hx : 0 ≤ x) : rem1 x = Int.fract x := by
   rw [rem1_real, ClockTime.fract_nonneg_real x hx]
 
+/-- over ℝ, `rem_euclid(1.0)` is the Euclidean fractional part `x − ⌊x⌋ ∈ [0, 1)`, for every sign of `x` -/
+theorem remEuclid1_real (x : ℝ) : remEuclid1 x = Int.fract x := by
+  unfold remEuclid1
+  simp only [rem1_real, lit_0, lit_1]
+  by_cases hx : 0 ≤ x
+  · rw [ClockTime.fract_nonneg_real x hx, if_neg (not_lt.mpr (Int.fract_nonneg x))]
+  · have hx' : x < 0 := lt_of_not_ge hx
+    have hfr : fract x = x - (⌈x⌉ : ℝ) := by unfold fract; rw [trunc_neg x hx']
+    rw [hfr]
+    by_cases hz : Int.fract x = 0
+    · -- a whole number: the remainder is 0, nothing is added
+      have hxf : x = (⌊x⌋ : ℝ) := by
+        have := Int.floor_add_fract x; rw [hz, add_zero] at this; exact this.symm
+      have hc : (⌈x⌉ : ℝ) = x := by
+        have h : ⌈x⌉ = ⌊x⌋ := by rw [hxf, Int.ceil_intCast, Int.floor_intCast]
+        rw [h]; exact hxf.symm
+      rw [hc, sub_self, if_neg (lt_irrefl _), hz]
+    · -- not whole: ⌈x⌉ = ⌊x⌋ + 1, the remainder x − ⌈x⌉ is negative, adding 1 gives x − ⌊x⌋
+      have hpos : 0 < Int.fract x := lt_of_le_of_ne (Int.fract_nonneg x) (Ne.symm hz)
+      have hc : ⌈x⌉ = ⌊x⌋ + 1 := by
+        rw [Int.ceil_eq_iff]
+        have h1 := Int.floor_le x
+        have h2 := Int.lt_floor_add_one x
+        have h3 : x - (⌊x⌋ : ℝ) = Int.fract x := rfl
+        push_cast
+        constructor <;> linarith
+      have hc' : (⌈x⌉ : ℝ) = (⌊x⌋ : ℝ) + 1 := by rw [hc]; push_cast; rfl
+      have h3 : x - (⌊x⌋ : ℝ) = Int.fract x := rfl
+      have hlt : x - (⌈x⌉ : ℝ) < 0 := by
+        have := Int.fract_lt_one x; rw [hc']; linarith
+      rw [if_pos hlt, hc']; linarith
+
 /-- `fract (fract a + b) = fract (a + b)` -/
 theorem intFract_fract_add (a b : ℝ) : Int.fract (Int.fract a + b) = Int.fract (a + b) := by
   have : Int.fract a + b = a + b - (⌊a⌋ : ℝ) := by
@@ -77,7 +109,13 @@ theorem update_value (l : Lfo ℝ) (dt : ℝ) (info : Info ℝ) :
         + (l.update dt info).amplitude.raw * (l.update dt info).waveform.value (l.update dt info).phase := rfl
 
 theorem update_phase (l : Lfo ℝ) (dt : ℝ) (info : Info ℝ) :
-    (l.update dt info).phase = rem1 (l.phase + dt * (l.update dt info).frequency.raw) := rfl
+    (l.update dt info).phase = Int.fract (l.phase + dt * (l.update dt info).frequency.raw) :=
+  remEuclid1_real _
+
+/-- after every update the phase is in [0, 1), whatever it was before and whatever the sign of the advance -/
+theorem update_phase_unit (l : Lfo ℝ) (dt : ℝ) (info : Info ℝ) :
+    0 ≤ (l.update dt info).phase ∧ (l.update dt info).phase < 1 := by
+  rw [update_phase]; exact ⟨Int.fract_nonneg _, Int.fract_lt_one _⟩
 
 theorem update_waveform (l : Lfo ℝ) (dt : ℝ) (info : Info ℝ) :
     (l.update dt info).waveform = l.waveform := rfl
@@ -90,41 +128,25 @@ noncomputable def advance (l : Lfo ℝ) (info : Info ℝ) : List ℝ → ℝ
   | [] => 0
   | dt :: rest => dt * (l.update dt info).frequency.raw + advance (l.update dt info) info rest
 
-/-- all steps and all frequency values met during the run are non-negative -/
-def FreqNonneg (l : Lfo ℝ) (info : Info ℝ) : List ℝ → Prop
-  | [] => True
-  | dt :: rest => 0 ≤ dt ∧ 0 ≤ (l.update dt info).frequency.raw ∧ FreqNonneg (l.update dt info) info rest
-
-theorem update_phase_nonneg (l : Lfo ℝ) (dt : ℝ) (info : Info ℝ) (hp : 0 ≤ l.phase) (hdt : 0 ≤ dt)
-    (hf : 0 ≤ (l.update dt info).frequency.raw) :
-    (l.update dt info).phase = Int.fract (l.phase + dt * (l.update dt info).frequency.raw) := by
-  rw [update_phase, rem1_nonneg]
-  exact add_nonneg hp (mul_nonneg hdt hf)
-
 theorem run_phase_unit (info : Info ℝ) : ∀ (dts : List ℝ) (l : Lfo ℝ), 0 ≤ l.phase → l.phase < 1 →
-    FreqNonneg l info dts → (l.run info dts).phase = Int.fract (l.phase + advance l info dts) := by
+    (l.run info dts).phase = Int.fract (l.phase + advance l info dts) := by
   intro dts
   induction dts with
   | nil =>
-    intro l h0 h1 _
+    intro l h0 h1
     simp only [run, advance, add_zero]
     exact (Int.fract_eq_self.mpr ⟨h0, h1⟩).symm
   | cons dt rest ih =>
-    intro l h0 _ hf
-    obtain ⟨hdt, hf1, hrest⟩ := hf
-    have hph := update_phase_nonneg l dt info h0 hdt hf1
-    have := ih (l.update dt info) (by rw [hph]; exact Int.fract_nonneg _)
-      (by rw [hph]; exact Int.fract_lt_one _) hrest
+    intro l _ _
+    have hph := update_phase l dt info
+    have := ih (l.update dt info) (update_phase_unit l dt info).1 (update_phase_unit l dt info).2
     simp only [run, advance]
     rw [this, hph, intFract_fract_add, add_assoc]
 
-theorem run_phase (info : Info ℝ) (l : Lfo ℝ) (dt : ℝ) (dts : List ℝ) (h0 : 0 ≤ l.phase)
-    (hf : FreqNonneg l info (dt :: dts)) :
+theorem run_phase (info : Info ℝ) (l : Lfo ℝ) (dt : ℝ) (dts : List ℝ) :
     (l.run info (dt :: dts)).phase = Int.fract (l.phase + advance l info (dt :: dts)) := by
-  obtain ⟨hdt, hf1, hrest⟩ := hf
-  have hph := update_phase_nonneg l dt info h0 hdt hf1
-  have := run_phase_unit info dts (l.update dt info) (by rw [hph]; exact Int.fract_nonneg _)
-    (by rw [hph]; exact Int.fract_lt_one _) hrest
+  have hph := update_phase l dt info
+  have := run_phase_unit info dts (l.update dt info) (update_phase_unit l dt info).1 (update_phase_unit l dt info).2
   simp only [run, advance]
   rw [this, hph, intFract_fract_add, add_assoc]
 
@@ -144,17 +166,6 @@ theorem advance_fixed (info : Info ℝ) : ∀ (dts : List ℝ) (l : Lfo ℝ), l.
     obtain ⟨h1, h2⟩ := update_frequency_stagnant l dt info hs
     simp only [advance, List.sum_cons]
     rw [ih _ h2, h1]; ring
-
-theorem freqNonneg_fixed (info : Info ℝ) : ∀ (dts : List ℝ) (l : Lfo ℝ), l.frequency.stagnant = true →
-    0 ≤ l.frequency.raw → (∀ dt ∈ dts, 0 ≤ dt) → FreqNonneg l info dts := by
-  intro dts
-  induction dts with
-  | nil => intro l _ _ _; trivial
-  | cons dt rest ih =>
-    intro l hs hf hnn
-    obtain ⟨h1, h2⟩ := update_frequency_stagnant l dt info hs
-    refine ⟨hnn dt (by simp), by rw [h1]; exact hf, ih _ h2 (by rw [h1]; exact hf) ?_⟩
-    intro x hx; exact hnn x (by simp [hx])
 
 end Lfo
 
